@@ -68,7 +68,9 @@ def setup_terms(setup):
 
 
 def cause_term(c):
-    return '%s %s %s' % ({'api': 'CApi', 'client': 'CClient', 'loss': 'CLoss'}[c[0]], q(c[1]), q(c[2]))
+    # 'apiq' = disconnect(sid, namespace, ignore_queue=True): the same model task (for the base Manager the
+    # unlocked pre-check is_connected is the same function of the state as can_disconnect)
+    return '%s %s %s' % ({'api': 'CApi', 'apiq': 'CApi', 'client': 'CClient', 'loss': 'CLoss'}[c[0]], q(c[1]), q(c[2]))
 
 
 class Unprintable(Exception):
@@ -227,6 +229,24 @@ LOCKED_WITNESSES = [
 ]
 
 
+def queue_variants(entries):
+    """Every `api` cause also as disconnect(sid, namespace, ignore_queue=True) (cause kind 'apiq'): all api
+    causes of the entry switched, and - when there are two or more - only the first one switched."""
+    out = []
+    for name, sc, how in entries:
+        idx = [i for i, c in enumerate(sc['causes']) if c[0] == 'api']
+        for sel in ([idx] + ([idx[:1]] if len(idx) > 1 else [])) if idx else []:
+            sc2 = dict(sc, causes=[['apiq'] + list(c[1:]) if i in sel else list(c)
+                                   for i, c in enumerate(sc['causes'])])
+            out.append(('%s [ignore_queue=True: cause %s]' % (name, ','.join(map(str, sel))), sc2, how))
+    return out
+
+
+LOCKED_WITNESSES += [(name + ' [ignore_queue=True]', sc2, sched, expect)
+                     for (name, sc, sched, expect) in LOCKED_WITNESSES
+                     for (_, sc2, _) in queue_variants([(name, sc, None)])[:1]]
+
+
 def probe_locked():
     """Which threaded code is under test: does it take server._disconnect_lock around
     is_connected + pre_disconnect (-> model granularity GLocked) or not (-> GThread, the code
@@ -279,6 +299,9 @@ def plan(thorough):
         for names in (('api', 'cli', 'loss'), ('api', 'cli', 'ocli'), ('api', 'loss', 'oapi'), ('cli', 'loss', 'ocli'),
                       ('api', 'cli', 'oapi'), ('api', 'api', 'cli')):
             out.append(('full ' + '+'.join(names), scenario(FULL, names), ('bounded', 2, 1500)))
+    # disconnect(sid, ignore_queue=True) - a documented argument, what PubSubManager uses for a disconnect that
+    # arrives over the queue: every entry above that has an `api` cause, again with that variant of the call
+    out += queue_variants(out)
     return out
 
 
